@@ -1153,6 +1153,58 @@ example : ∀ re, (findallTop 30 fresh exTailN "//*/a/b/c/d".toList re).res =
   decide +kernel
 
 
+/-- **`'//*/name/s1/…/sk'` on a list root (`n0list`), any k**: exactly the pairs of the same reference
+`tailN subs (descV name root)`, keys `"//" ++` rendered position (`//[0]/x/a/b/c`), document order -/
+theorem C19_descendant_tail_n_list_root (cls : Cls) (xs : List Val) (name : Str) (subs : List Str)
+    (hn : PlainKey name) (hs : ∀ s ∈ subs, PlainKey s)
+    (hk : KeysOkV (.list cls xs)) (hc : ContOkV (.list cls xs))
+    (hl : NnlsV (name :: subs).dropLast (.list cls xs)) (re : Bool := true) :
+    ∃ n, ∀ fuel ≥ n,
+      (findallTop fuel fresh (.list cls xs) (['/', '/', '*', '/'] ++ joinSl name subs) re).res =
+        .ok (some ((tailN subs (descV name (.list cls xs))).map (fun pv => ('/' :: '/' :: renderPos pv.1, pv.2)))) := by
+  obtain ⟨n, hN⟩ := fatn_descendant_list re hn hs cls xs hk hc hl
+  refine ⟨n, fun fuel hf => ?_⟩
+  show (fa re fuel _ (tokens _) [] []).res = _
+  rw [fatn_tokens hn hs]
+  exact hN fuel hf
+
+/-- a list root for tails of three and four steps: matches in a dictionary element, below `x` (a dictionary),
+in a nested list below `z`; `[1][0]/a/b` a final element and `[2]/a` an integer miss -/
+def exTailNR : Val :=
+  .list .n0 [.dict .n0 [(['a'], .dict .n0 [(['b'], .dict .n0 [(['c'], .str ['p'])])]),
+                        (['x'], .dict .n0 [(['a'], .dict .n0 [(['b'], .dict .n0 [(['c'], .dict .n0 [(['d'], .str ['q'])])])])])],
+             .list .n0 [.dict .n0 [(['a'], .dict .n0 [(['b'], .str ['f'])])],
+                        .dict .n0 [(['z'], .dict .n0 [(['a'], .dict .n0 [(['b'], .dict .n0 [(['c'], .str ['r'])])])])]],
+             .dict .n0 [(['a'], .int 5)]]
+
+-- non-vacuity of `C19_descendant_tail_n_list_root` (k = 3, 4); the real code returns
+-- `{'//[0]/a/b/c': 'p', '//[0]/x/a/b/c': {'d': 'q'}, '//[1][1]/z/a/b/c': 'r'}` and `{'//[0]/x/a/b/c/d': 'q'}` (both modes)
+example : KeysOkV exTailNR ∧ ContOkV exTailNR ∧ NnlsV ([['a'], ['b'], ['c']] : List Str).dropLast exTailNR ∧
+    NnlsV ([['a'], ['b'], ['c'], ['d']] : List Str).dropLast exTailNR := by
+  have pk : ∀ k : Str, k ≠ [] → (∀ c ∈ k, plainChar c = true) → k ≠ ['.', '.'] → PlainKey k :=
+    fun k h1 h2 h3 => ⟨h1, h2, h3⟩
+  simp only [exTailNR, KeysOkV, KeysOkK, KeysOkL, ContOkV, ContOkK, ContOkL, NnlsV, NnlsK, NnlsL, lookup,
+    FindAll.isContainer, List.dropLast]
+  refine ⟨?_, by decide, ?_, ?_⟩
+  · repeat' apply And.intro
+    all_goals first | exact pk _ (by decide) (by decide) (by decide) | trivial | decide
+  · repeat' apply And.intro
+    all_goals first | trivial | (intro n hn c xs h; revert h; simp at hn; rcases hn with rfl | rfl <;> simp)
+  · repeat' apply And.intro
+    all_goals first | trivial | (intro n hn c xs h; revert h; simp at hn; rcases hn with rfl | rfl | rfl <;> simp)
+example : tailN [['b'], ['c']] (descV ['a'] exTailNR) =
+    [([.idx 0, .key ['a'], .key ['b'], .key ['c']], .str ['p']),
+     ([.idx 0, .key ['x'], .key ['a'], .key ['b'], .key ['c']], .dict .n0 [(['d'], .str ['q'])]),
+     ([.idx 1, .idx 1, .key ['z'], .key ['a'], .key ['b'], .key ['c']], .str ['r'])] := by
+  simp [exTailNR, descV, descK, descL, lookup, tailN, tailOf, tl1]
+example : ∀ re, (findallTop 30 fresh exTailNR "//*/a/b/c".toList re).res =
+    .ok (some [("//[0]/a/b/c".toList, .str ['p']), ("//[0]/x/a/b/c".toList, .dict .n0 [(['d'], .str ['q'])]),
+      ("//[1][1]/z/a/b/c".toList, .str ['r'])]) := by
+  decide +kernel
+example : ∀ re, (findallTop 30 fresh exTailNR "//*/a/b/c/d".toList re).res =
+    .ok (some [("//[0]/x/a/b/c/d".toList, .str ['q'])]) := by
+  decide +kernel
+
 -- non-vacuity of the membership forms: the position `a/b/a/b/c` of `exTailN` holds `'r'`
 example : getAt exTailN ([.key ['a'], .key ['b']] ++ ([['a'], ['b'], ['c']] : List Str).map Seg.key) = some (.str ['r']) := by
   decide
